@@ -665,7 +665,7 @@ def c14(tier, seed):
         Ob('parity.allocated_size', P, 'h_allocated_size', unwind=8, small_path=True, timeout=900, mem=6, cost=8, kind='bounded', bound='1..3 disks of at most 5 positions, every block state at every position',
            functions=['parity_allocated_size (cmdline/parity.c)', 'block_has_file (cmdline/elem.h)'], note='fs_size / fs_par2block_find by stub over a symbolic block table'),
     ]
-    return obs + main_obs() + [o for o in scanfile_obs() if o.name in ('scan.emptydir', 'scan.scan_file')]
+    return obs + main_obs() + [o for o in scanfile_obs() if o.name in ('scan.emptydir', 'scan.scan_file', 'scan.link', 'scan.removed.region')]
 
 
 OPEN_NOATIME = dict(region='open_noatime', file='cmdline/unix.c', begin='int open_noatime(const char* file, int flags)', end='int dirent_hidden(struct dirent* dd)', max_lines=16, expect_loops=0,
